@@ -69,7 +69,18 @@ type lockSig struct {
 	at    token.Pos
 }
 
+// orderSig: an effect of the function body and its position relative to the steps that can fail (calls whose error is
+// tested and whose failure branch leaves the function): B = steps that must have succeeded for the effect to happen,
+// A = steps that run only after the effect.
+type orderSig struct {
+	E  string   `json:"e"`
+	B  []string `json:"b,omitempty"`
+	A  []string `json:"a,omitempty"`
+	at token.Pos
+}
+
 type funcSig struct {
+	Order []orderSig `json:"order,omitempty"`
 	Locks []lockSig `json:"locks"`
 	Conds []condSig `json:"conds"`
 	Calls []string  `json:"calls"`
@@ -548,7 +559,186 @@ func (w *World) computeSig(root *ssa.Function) funcSig {
 		})
 	}
 	sig.Calls = sortedKeys(calls)
+	sig.Order = w.orderSigs(root)
 	return sig
+}
+
+// errOriginAt: like errOrigin, but for an error variable that is assigned many times (one `err` reused through a long
+// function) the call is the one whose store is the closest one dominating the tested load.
+func errOriginAt(fam *Family, v ssa.Value) *ssa.Call {
+	ld, ok := v.(*ssa.UnOp)
+	if !ok || ld.Op != token.MUL {
+		return errOrigin(fam, v)
+	}
+	al, ok := fam.canon(ld.X).(*ssa.Alloc)
+	if !ok {
+		return errOrigin(fam, v)
+	}
+	var best *ssa.Store
+	for _, st := range fam.stores[al] {
+		if st.Parent() != ld.Parent() || !instrDominates(st, ld) {
+			continue
+		}
+		if best == nil || instrDominates(best, st) {
+			best = st
+		}
+	}
+	if best == nil {
+		return nil
+	}
+	// no other store may lie between best and the load
+	for _, st := range fam.stores[al] {
+		if st != best && st.Parent() == ld.Parent() && instrReaches(best, st) && instrReaches(st, ld) && !instrDominates(st, best) {
+			return nil
+		}
+	}
+	for _, x := range backSlice(best.Val, SliceOpts{MaxDepth: 4, NoAggregates: true}) {
+		if c, ok := x.(*ssa.Call); ok {
+			return c
+		}
+	}
+	return nil
+}
+
+// orderSigs: see orderSig. Only the declared function's own body (literals run at another time).
+func (w *World) orderSigs(fn *ssa.Function) []orderSig {
+	if len(fn.Blocks) == 0 {
+		return nil
+	}
+	type item struct {
+		in   ssa.Instruction
+		name string
+	}
+	var effects, fallible []item
+	failSide := map[ssa.Instruction]*ssa.BasicBlock{}
+	isSync := func(s sym) bool {
+		return s.pkg == "sync" || strings.Contains(s.pkg, "go-deadlock") || s.pkg == "sync/atomic" || strings.HasSuffix(s.pkg, "/atomic")
+	}
+	// error tests whose failure branch leaves the function
+	fam := familyOf(fn)
+	for _, b := range fn.Blocks {
+		v, nn, isNil, ok := errNilTest(b)
+		if !ok {
+			continue
+		}
+		org := errOriginAt(fam, v)
+		if org == nil || org.Parent() != fn {
+			continue
+		}
+		rn, rs := blockReach(nn, nil), blockReach(isNil, nil)
+		rn[nn], rs[isNil] = true, true
+		rejoin := false
+		for x := range rn {
+			if rs[x] {
+				rejoin = true
+			}
+		}
+		if rejoin {
+			continue
+		}
+		if _, dup := failSide[org]; dup {
+			continue
+		}
+		failSide[org] = nn
+		fallible = append(fallible, item{org, calleeName(w, org.Common())})
+	}
+	resultsUnused := func(c *ssa.Call) bool {
+		if c.Referrers() == nil {
+			return true
+		}
+		for _, ref := range *c.Referrers() {
+			switch x := ref.(type) {
+			case *ssa.DebugRef:
+			case *ssa.Extract:
+				if !isErrorType(x.Type()) {
+					return false
+				}
+			case *ssa.Store, *ssa.BinOp, *ssa.Phi, *ssa.MakeInterface, *ssa.Return:
+				if !isErrorType(c.Type()) {
+					return false
+				}
+			default:
+				if !isErrorType(c.Type()) {
+					return false
+				}
+			}
+		}
+		return true
+	}
+	for _, b := range fn.Blocks {
+		for _, in := range b.Instrs {
+			switch x := in.(type) {
+			case *ssa.Call:
+				c := x.Common()
+				if bi, isB := c.Value.(*ssa.Builtin); isB {
+					if (bi.Name() == "delete" || bi.Name() == "close") && len(c.Args) > 0 {
+						effects = append(effects, item{in, "builtin." + bi.Name() + " " + w.sigString(c.Args[0], 3)})
+					}
+					continue
+				}
+				s := callSym(c)
+				if s.name == "" || isLogLike(s) || isSync(s) || strings.HasPrefix(s.name, "New") || strings.HasSuffix(s.pkg, "/error") {
+					continue
+				}
+				if !resultsUnused(x) {
+					continue
+				}
+				effects = append(effects, item{in, calleeName(w, c)})
+			case *ssa.Go:
+				effects = append(effects, item{in, "go " + calleeName(w, x.Common())})
+			case *ssa.Send:
+				effects = append(effects, item{in, "send " + w.sigString(x.Chan, 2)})
+			case *ssa.MapUpdate:
+				if ts := w.sigString(x.Map, 2); strings.HasPrefix(ts, "$") && strings.Contains(ts, ".") {
+					effects = append(effects, item{in, "w " + ts + "[]"})
+				}
+			case *ssa.Store:
+				if fa, ok := x.Addr.(*ssa.FieldAddr); ok {
+					if ts := w.sigString(fa, 2); strings.HasPrefix(ts, "$") && strings.Contains(ts, ".") {
+						effects = append(effects, item{in, "w " + ts})
+					}
+				}
+			}
+		}
+	}
+	number := func(items []item) []string {
+		sort.SliceStable(items, func(i, j int) bool { return items[i].in.Pos() < items[j].in.Pos() })
+		cnt := map[string]int{}
+		out := make([]string, len(items))
+		for i, it := range items {
+			cnt[it.name]++
+			out[i] = fmt.Sprintf("%s#%d", it.name, cnt[it.name])
+		}
+		return out
+	}
+	en, fnm := number(effects), number(fallible)
+	var out []orderSig
+	for i, e := range effects {
+		o := orderSig{E: en[i], at: e.in.Pos()}
+		for j, f := range fallible {
+			if f.in == e.in {
+				continue
+			}
+			fe, ef := instrReaches(f.in, e.in), instrReaches(e.in, f.in)
+			switch {
+			case fe && !ef:
+				nn := failSide[f.in]
+				r := blockReach(nn, nil)
+				r[nn] = true
+				if !r[e.in.Block()] {
+					o.B = append(o.B, fnm[j])
+				}
+			case ef && !fe:
+				o.A = append(o.A, fnm[j])
+			}
+		}
+		if len(o.A)+len(o.B) > 0 {
+			sort.Strings(o.A)
+			sort.Strings(o.B)
+			out = append(out, o)
+		}
+	}
+	return out
 }
 
 func sigKeyOf(fn *ssa.Function) string {
@@ -605,6 +795,8 @@ func sigRules(w *World, r *Report, prop string) {
 	r.Rule(prop+"-B5", "operands keep their identity", "at a call of a repository function / interface method, a field store or a map update found again, exactly one operand differs from the reference and the new operand is another value the reference function already uses elsewhere: the wrong one of two same-typed values is used", 0)
 	r.Rule(prop+"-B7", "guards keep leaving", "a decision found again whose one side left the function in the reference tree (and whose other side is unchanged) still leaves it on that side", 0)
 	r.Rule(prop+"-B6", "accesses keep their locks", "an access to shared state (a field of the receiver / of a parameter, or a map held in one) found again is made with at least the locks held in the reference tree", 0)
+	r.Rule(prop+"-B9", "effects keep their side of the steps that can fail", "an effect found again (a call made for its effect, a write to shared state, a send, a go statement) that the reference tree performs only after a fallible step succeeded is not performed before that step (it would happen although the step fails), and one performed before a fallible step is not moved behind its success (it would no longer happen when the step fails)", 0)
+	nOrd := 0
 	nLock := 0
 	nOp := 0
 	nCond, nCall, nArg, nCmp := 0, 0, 0, 0
@@ -615,6 +807,55 @@ func sigRules(w *World, r *Report, prop string) {
 		}
 		cur := w.computeSig(fn)
 		host := shortFn2(fn)
+		// ---- B9
+		{
+			base := func(k string) string { return k[:strings.LastIndex(k, "#")] }
+			count := func(os []orderSig) (map[string]int, map[string]int) {
+				e, f := map[string]int{}, map[string]int{}
+				seenF := map[string]bool{}
+				for _, o := range os {
+					e[base(o.E)]++
+					for _, x := range append(append([]string{}, o.A...), o.B...) {
+						if !seenF[x] {
+							seenF[x] = true
+							f[base(x)]++
+						}
+					}
+				}
+				return e, f
+			}
+			re, rf := count(ref.Order)
+			ce, cf := count(cur.Order)
+			curBy := map[string]orderSig{}
+			for _, o := range cur.Order {
+				curBy[o.E] = o
+			}
+			has := func(xs []string, x string) bool {
+				for _, y := range xs {
+					if y == x {
+						return true
+					}
+				}
+				return false
+			}
+			for _, ro := range ref.Order {
+				co, found := curBy[ro.E]
+				if !found || re[base(ro.E)] != ce[base(ro.E)] {
+					continue
+				}
+				nOrd++
+				for _, f := range ro.B {
+					if rf[base(f)] == cf[base(f)] && has(co.A, f) {
+						r.Fail(prop+"-B9", fmt.Sprintf("%s | %s ahead of %s", host, clip(ro.E, 80), clip(f, 60)), co.at, "the reference tree performs this effect only after "+f+" succeeded; it is now performed before that step, so it happens although the step fails (and the function reports the failure)")
+					}
+				}
+				for _, f := range ro.A {
+					if rf[base(f)] == cf[base(f)] && has(co.B, f) {
+						r.Fail(prop+"-B9", fmt.Sprintf("%s | %s behind %s", host, clip(ro.E, 80), clip(f, 60)), co.at, "the reference tree performs this effect before "+f+"; it is now performed only after that step succeeded, so it no longer happens when the step fails (what the failure path relies on — a registration to clean up, a released resource — is missing)")
+					}
+				}
+			}
+		}
 		// ---- B1 / B2
 		group := func(cs []condSig, key func(condSig) string) map[string][]condSig {
 			m := map[string][]condSig{}
@@ -805,6 +1046,7 @@ func sigRules(w *World, r *Report, prop string) {
 			}
 		}
 	}
+	r.OK(prop+"-B9", "census", 0, fmt.Sprintf("%d effects with a fallible step before or after them found again", nOrd))
 	r.OK(prop+"-B7", "census", 0, fmt.Sprintf("%d decisions matched with the reference", nCond))
 	r.OK(prop+"-B6", "census", 0, fmt.Sprintf("%d shared-state accesses matched with the reference", nLock))
 	r.OK(prop+"-B5", "census", 0, fmt.Sprintf("%d operations matched with the reference", nOp))
